@@ -108,7 +108,7 @@ def malGen (seed idx size : Nat) : Case :=
         "1073741824", "9223372036854775807", "4611686018427387904"]
       let forced ← Gen.oneOf ["0", "1", "-1", "9223372036854775807"]
       let gs ← wildInt
-      let ge ← if ← Gen.prob 1 2 then wildInt else pure (gs + (((← Gen.below 6) : Nat) : Int))
+      let ge ← if ← Gen.prob 1 2 then wildInt else pure (min (gs + (((← Gen.below 6) : Nat) : Int)) (2 ^ 63 - 1))
       return (["multi", forced, optKind, toString gs, toString ge] ++ files, "multi")
     | _ =>
       let f ← Gen.Block.genRelFile 3
